@@ -51,7 +51,7 @@ def build_kani(crate, log):
     with open(os.path.join(BUILD, f"{crate}.lock"), "w") as lk:
         fcntl.flock(lk, fcntl.LOCK_EX)
         p = subprocess.run(
-            ["cargo", "kani", "--only-codegen", "--target-dir", tdir],
+            ["cargo", "kani", "--only-codegen", "-Z", "stubbing", "--target-dir", tdir],
             cwd=os.path.join(KANI_DIR, crate),
             env=crate_env(crate),
             stdout=subprocess.PIPE,
@@ -83,7 +83,7 @@ def build_native(crate, release, log):
 
 
 CHECK_RE = re.compile(
-    r"^Check \d+: (?P<name>\S+)\n\s*- Status: (?P<status>\w+)\n\s*- Description: \"(?P<desc>.*)\"\n(?:\s*- Location: (?P<loc>.*)\n)?",
+    r"^Check \d+: (?P<name>.+)\n\s*- Status: (?P<status>\w+)\n\s*- Description: \"(?P<desc>.*)\"\n(?:\s*- Location: (?P<loc>.*)\n)?",
     re.M,
 )
 PLAY_RE = re.compile(
@@ -138,18 +138,21 @@ def run_harness(h, tier, logdir):
     """Returns a result dict; never raises for solver-side problems."""
     tdir = os.path.join(BUILD, f"{h.crate}-kani")
     cmd = ["cargo", "kani", "--harness", h.qual, "--exact", "--target-dir", tdir, "-Z", "unstable-options", "-Z", "concrete-playback", "--concrete-playback=print"]
-    if h.stubs:
-        cmd += ["-Z", "stubbing"]
+    cmd += ["-Z", "stubbing"]
     cbmc = []
-    if h.unwind is not None:
-        cbmc += ["--unwind", str(h.unwind)]
+    # default bound 20: enough for the 16-byte memcmp-free compare loops of the oracles and it
+    # bounds the (statically recursive, dynamically depth<=2) drop glue of io::Error's Box<dyn Error>;
+    # unwinding assertions stay on, so a bound that is too small is reported, never silently cut.
+    unwind = h.unwind if h.unwind is not None else 20
+    res_unwind = unwind
+    cbmc += ["--unwind", str(unwind)]
     us = ["memcmp.0:26"] + h.unwindset
     cbmc += ["--unwindset", ",".join(us)]
     cmd += ["--cbmc-args"] + cbmc
     timeout = h.timeout or (420 if tier == "quick" else 2400)
     log = os.path.join(logdir, f"{h.crate}.{h.name}.log")
     t0 = time.time()
-    res = {"harness": h.name, "crate": h.crate, "qual": h.qual, "prop": h.prop, "cmd": " ".join(cmd), "log": log, "bounds": h.bounds, "assumes": h.assumes, "desc": h.desc, "stubs": h.stubs, "unwind": h.unwind}
+    res = {"harness": h.name, "crate": h.crate, "qual": h.qual, "prop": h.prop, "cmd": " ".join(cmd), "log": log, "bounds": h.bounds, "assumes": h.assumes, "desc": h.desc, "stubs": h.stubs, "unwind": h.unwind if h.unwind is not None else 20}
     try:
         p = subprocess.Popen(cmd, cwd=os.path.join(KANI_DIR, h.crate), env=crate_env(h.crate), stdout=subprocess.PIPE, stderr=subprocess.STDOUT, text=True, preexec_fn=_limits(h.mem_gb))
         try:
@@ -185,6 +188,9 @@ def run_harness(h, tier, logdir):
         else:
             res.update(status="ok")
         return res
+    if re.search(r"[Oo]ut of memory|CBMC failed with status|std::bad_alloc|Killed", out) and not any(c["status"] == "FAILURE" and classify(c) == "real" for c in checks):
+        res.update(status="oom", detail="CBMC ran out of memory / crashed before a verdict")
+        return res
     if "VERIFICATION:- FAILED" not in out:
         tail = "\n".join(out.splitlines()[-8:])
         res.update(status="error", detail="no verdict (crash / out of memory / compile error): " + tail[-600:])
@@ -197,14 +203,18 @@ def run_harness(h, tier, logdir):
         return res
     # attach counterexample values
     fails = [p_ for p_ in plays if p_["kind"] != "cover"]
+    used = set()
     for fc in res["failed_checks"]:
-        for p_ in fails:
-            if p_["desc"] == fc["desc"]:
+        # one playback per failed check, same order among checks with the same description
+        for i, p_ in enumerate(fails):
+            if i not in used and p_["desc"] == fc["desc"]:
                 fc["vals"] = p_["vals"]
+                used.add(i)
                 break
         else:
-            if fails:
-                fc["vals"] = fails[0]["vals"]
+            same = [p_ for p_ in fails if p_["desc"] == fc["desc"]]
+            if same or fails:
+                fc["vals"] = (same or fails)[0]["vals"]
     res.update(status="failed")
     return res
 
